@@ -7,7 +7,7 @@ From Coq Require Import ZifyBool ZifyN.
 
 (* the known deviation: the text of a quoted string token starts  quote, line terminator *)
 Definition lex_leading_lt (d : str) : bool :=
-  match d with 34 :: c :: _ => lx_is_line_term c | _ => false end.
+  match d with a :: c :: _ => (a =? 34) && lx_is_line_term c | _ => false end.
 
 (* ---------- numbers ---------- *)
 Lemma after_exp_sound pre r k d rest : lx_num_after_exp pre r = (LxTok k, d, rest) ->
@@ -321,7 +321,7 @@ Proof.
       split; [apply Lx_block, BS_intro, E|]. cbn [Restrict]. intros [= ].
     + injection H as <- <- <-. split; [apply Lx_string, QS_empty|]. cbn [Restrict starts]. intros _. exact Hq34.
   - destruct (lx_scan_str _ r1) as [[d0 rest0] e] eqn:E. destruct e; [discriminate|].
-    injection H as <- <- <-. cbn [lex_leading_lt] in Hlt.
+    injection H as <- <- <-. cbn [lex_leading_lt] in Hlt. change (34 =? 34) with true in Hlt. cbn [andb] in Hlt.
     assert (E2 : lx_scan_str LxSStr (c :: r1) = (c :: d0, rest0, false)).
     { cbn [lx_scan_str]. replace (c =? 34) with false by lia. rewrite Hlt.
       destruct (c =? 92); rewrite E; reflexivity. }
